@@ -1,6 +1,7 @@
 import ZarrsModel.Model.Codec
 import ZarrsModel.Model.PackBits
 import ZarrsModel.Model.Lossy
+import ZarrsModel.Model.Vlen
 import ZarrsModel.Driver.C01
 /- driver handler for C03: predicted encoding of modelled chains, round trip and declared size always required -/
 namespace Zarrs.DriverC03
@@ -15,8 +16,27 @@ structure Acc where
   bytes : Option Bytes := none
   a2a : List String := []
 
+/-- `vlen:<32|64>:<little|big>:<index crc32c 0|1>:<data crc32c 0|1>`: the modelled configurations of the `vlen` codec -/
+def vlenCfgOf (tok : String) : Option Vlen.Cfg :=
+  match tok.splitOn ":" with
+  | ["vlen", w, e, ic, dc] =>
+    if (w == "64" || w == "32") && (e == "big" || e == "little") && (ic == "0" || ic == "1") && (dc == "0" || dc == "1") then
+      some ⟨w == "64", e == "big", if ic == "1" then [crc32cCodec] else [], if dc == "1" then [crc32cCodec] else []⟩
+    else none
+  | _ => none
+
 def stepCodec (_es : Nat) (acc : Acc) (tok : String) : Option Acc :=
   match tok.splitOn ":" with
+  | ["vlenv2"] =>
+    -- `vlen_v2` / `vlen-utf8` / `vlen-bytes` / `vlen-array`: the numcodecs layout of the (transposed) elements
+    (match Vlen.vlenV2Enc acc.elems.length (Vlen.VArr.ofElems acc.elems) with
+     | .ok b => some { acc with bytes := some b }
+     | .error _ => none)
+  | ["vlen", _, _, _, _] => do
+    let c ← vlenCfgOf tok
+    match Vlen.vlenEnc c acc.elems.length (Vlen.VArr.ofElems acc.elems) with
+    | .ok b => some { acc with bytes := some b }
+    | .error _ => none
   | ["transpose", ord] => do
     let order ← parseNl ord
     let tshape := permute acc.shape order
@@ -95,17 +115,31 @@ def judgeLossy (spec dtype : String) (data dec : List (List Nat)) : Bool :=
      | some sc => data.length == dec.length && (data.zip dec).all (fun (x, y) =>
          match ratOf dtype x, ratOf dtype y with
          | some a, some b =>
-           -- 0.5/scale, plus the rounding of the float arithmetic itself (relative 2^-20 for float32 types)
+           -- 0.5/scale, plus the rounding of the float arithmetic itself (x*scale, the division on decode: relative
+           -- 2^-20 for float32, 2^-49 for float64 - a value exactly half a step from its neighbours, e.g. 11363.25 at
+           -- scale 10, decodes to the double nearest to 11363.3, which is not exactly 0.05 away)
            let (_, na, da) := a
-           let slackN := if dtype == "float32" then na else 0
-           let slackD := if dtype == "float32" then da * 1048576 else 1
+           let slackN := if dtype == "float32" || dtype == "float64" then na else 0
+           let slackD := if dtype == "float32" then da * 1048576 else if dtype == "float64" then da * 562949953421312 else 1
            -- tolerance = 1/(2*sc) + slackN/slackD
            within a b (slackD + 2 * sc * slackN) (2 * sc * slackD)
          | _, _ => x == y)
      | none => false)
   | _ => false
 
+/-- `c03 vdec codec=<vlenv2|vlen:…> shape=<n> bytes=<hex>`: decode an arbitrary byte string as a chunk of `n`
+variable-length elements: `err` or `val <elems>` (the model never panics; where the pinned tree does, it says `err`) -/
+def handleVdec (l : Line) : Option (List String) := do
+  let tok ← l.get "codec"
+  let n := prod (← l.nl "shape")
+  let b ← parseHex (← l.get "bytes")
+  let r ← if tok == "vlenv2" then some (Vlen.vlenV2Dec n b) else (vlenCfgOf tok).map (fun c => Vlen.vlenDec c n b)
+  pure [match r with
+        | .ok v => "val " ++ DriverC01.showElems v.elems
+        | .error _ => "err"]
+
 def handle (l : Line) : Option (List String) := do
+  if l.verbs[1]? == some "vdec" then return (← handleVdec l)
   let shape ← l.nl "shape"
   let model := (← l.get "model").splitOn "|"
   let modelled := (l.get "modelled") == some "1"
@@ -124,7 +158,9 @@ def handle (l : Line) : Option (List String) := do
     let elems ← DriverC01.parseElems (← l.get "data")
     let acc ← model.foldl (fun (a : Option Acc) tok => a.bind (fun a => stepCodec es a tok)) (some { elems := elems, shape := shape })
     let enc ← acc.bytes
-    pure ["val rt=true sizeok=true len=" ++ toString enc.length ++ " decl=fixed:" ++ toString enc.length ++ " a2a=" ++ a2aStr ++ " enc=" ++ showHex enc]
+    -- the variable-length codecs declare `UnboundedSize`, and so does every bytes->bytes codec after them
+    let decl := if model.any (·.startsWith "vlen") then "unbounded" else "fixed:" ++ toString enc.length
+    pure ["val rt=true sizeok=true len=" ++ toString enc.length ++ " decl=" ++ decl ++ " a2a=" ++ a2aStr ++ " enc=" ++ showHex enc]
   else
     pure ["val rt=true sizeok=true len=" ++ field otoks "len" ++ " decl=" ++ field otoks "decl" ++ " a2a=" ++ a2aStr ++ " enc=?"]
 
